@@ -130,7 +130,16 @@ def doc(rng):
             # attribute-like endings other dialects give a meaning to (explicit heading ids, classes, trailing hashes): plain text here
             parts.append(rng.choice([" {#%s}", " {.%s}", " {%s}", " {: #%s}", " {#%s} #", " {#%s} ##  ", " #%s", " {#%s .x}", "{#%s}", " {#%s}\\"]) % rng.choice(gen.WORDS))
         lines.append("".join(parts))
-    return "\n".join(lines) + rng.choice(["\n", "", "\n\n"])
+    d = "\n".join(lines) + rng.choice(["\n", "", "\n\n"])
+    r = rng.random()
+    if r < 0.06:
+        d = d.replace("\n", "\r")             # classic-Mac line ends
+    elif r < 0.12:
+        d = d.replace("\n", "\r\n")
+    elif r < 0.16 and "\n" in d:
+        i = rng.choice([k for k, c in enumerate(d) if c == "\n"])
+        d = d[:i] + rng.choice(["\r", "\r\n", "\n\r"]) + d[i + 1:]         # one stray line end of another style
+    return d
 
 
 def leaf_words(tokens, out, where):
